@@ -382,6 +382,8 @@ def C07(ctx):
         act = set(st.active_machines(before)) | set(st.active_machines(after)) if c['op'] != 'S' else set(st.active_machines(after))
         for t in ctx.sut[i]:
             p = parse(t)
+            if p and p[0] == 'en' and p[1] in st.machine:
+                act.add(p[1])       # entered within this operation (an operation may dispatch further, e.g. re-offered, occurrences)
             if p and p[0] in ('g', 'a', 'en', 'ex'):
                 o = tok_owner(ctx, p)
                 if o and o[0] not in act:
